@@ -29,6 +29,13 @@ def make_variant(root, edits):
             for n in names:
                 shutil.copy(os.path.join(root, pkg, n + '.py'), os.path.join(tmp, pkg, n + '.py'))
         for ed in edits:
+            if ed[0] == 'PATCH':
+                import subprocess
+                r = subprocess.run(['git', 'apply', '--whitespace=nowarn', ed[1]], cwd=tmp, capture_output=True, text=True)
+                if r.returncode != 0:
+                    shutil.rmtree(tmp, ignore_errors=True)
+                    return None, 'patch does not apply: %s' % r.stderr.strip()[:200]
+                continue
             rel, old, new = ed[:3]
             scope = ed[3] if len(ed) > 3 else None
             path = os.path.join(tmp, rel)
